@@ -323,7 +323,7 @@ ChanReqs(c, contents, retries) ==
 Config(name) ==
   CASE name = "pay" ->        \* paying an invoice over two channels, overpayment attempts
          [chans |-> {"c1", "c2"}, hashes |-> {"h1"},
-          reqs |-> ChanReqs("c1", {<<>>, <<O("h1", 1)>>, <<O("h1", 2)>>}, FALSE)
+          reqs |-> ChanReqs("c1", {<<>>, <<O("h1", 1)>>, <<O("h1", 2)>>, <<O("h1", 1), O("h1", 1)>>}, FALSE)
               \cup ChanReqs("c2", {<<>>, <<O("h1", 1)>>, <<O("h1", 2)>>}, FALSE)
               \cup {[op |-> "AddInvoice", h |-> "h1", a |-> 1], [op |-> "Fulfill", h |-> "h1"],
                     [op |-> "Heartbeat"], [op |-> "Restart"]}]
